@@ -83,7 +83,30 @@ mod proofs {
         }
     }
 
-    // @harness id=C09 tier=thorough unwind=4 timeout=7200
+    // @harness id=C09 tier=quick unwind=4 timeout=1800
+    // @desc both copies of the pointwise (dyadic) product return the exact residue (a*b) mod q at a 61-bit modulus that is NOT close to a power of two (where the carries inside the Barrett quotient estimate matter), for operands around a pair at which the Round-1 addition lo(z0*cr1) + hi(z0*cr0) carries into the next word
+    // @bounds modulus 0x1b2c3d4e5f607183 (61 bits, const_ratio = floor(2^128/q) from the defining equations); a = 1541096977114576111 + da, b = 1038082207354901899 + db with da < 256, db < 16 (12 symbolic bits: 55 s; 16 bits: 540 s; a 24-bit window did not finish in 15 min; the harness asserts that the Round-1 carry occurs at da = db = 0); full-range equality of the two copies: thorough harness c09_dyadic_siblings_agree_61bit
+    // @funcs polysmallmod::dyadic_product, polysmallmod::dyadic_product_inplace
+    #[kani::proof]
+    fn c09_dyadic_product_carry_corner_61bit() {
+        let q = 0x1b2c_3d4e_5f60_7183u64;
+        let m = crate::modulus::verif_v::mk_modulus(q, false);
+        let (a0, b0) = (1541096977114576111u64, 1038082207354901899u64);
+        // the corner is real: at (a0, b0) the low word of z0*cr1 plus the high word of z0*cr0 exceeds 64 bits
+        { let z0 = (a0 as u128 * b0 as u128) as u64; let cr = m.const_ratio();
+          let lo = (z0 as u128 * cr[1] as u128) as u64; let hi = ((z0 as u128 * cr[0] as u128) >> 64) as u64;
+          assert!(lo.checked_add(hi).is_none()); }
+        let da: u8 = kani::any(); let db: u8 = kani::any(); kani::assume(db < 16);
+        let a = a0 + da as u64; let b = b0 + db as u64;
+        let e = ((a as u128 * b as u128) % q as u128) as u64;
+        let mut o = [0u64]; dyadic_product(&[a], &[b], &m, &mut o);
+        let mut x = [a]; dyadic_product_inplace(&mut x, &[b], &m);
+        kani::cover!(da == 0 && db == 0);
+        assert!(o[0] == e);
+        assert!(x[0] == e);
+    }
+
+    // @harness id=C09 tier=deep unwind=4 timeout=7200
     // @desc the two copies of the pointwise (dyadic) product -- dyadic_product and dyadic_product_inplace -- return the SAME canonical residue for every operand pair at a 61-bit modulus (where the Barrett carries matter), and that residue is below the modulus; at the 7-bit modulus both are compared with the arithmetic definition in c02_poly_kernels_positionwise
     // @bounds one position; modulus 2305843009213693669 (61 bits, from the literal family) and 0x1fffffffffe00001; operands any value below the modulus (full 61-bit range, symbolic x symbolic product shared by both copies)
     // @funcs polysmallmod::dyadic_product, polysmallmod::dyadic_product_inplace
